@@ -369,14 +369,40 @@ fn make_ctx(thorough: bool) -> Ctx {
     let me = std::env::current_exe().expect("current_exe");
     let sibling = me.parent().map(|p| p.join(helper::HELPER_NAME));
     let helper = format!("{root}/{}", helper::HELPER_NAME);
+    // (a sibling built from other helper sources than this harness is not used: probe it once)
     let src = match sibling {
-        Some(s) if s.is_file() => s,
+        Some(s) if s.is_file() && probe_helper(&s, &root) => s,
         _ => me.clone(),
     };
-    let helper_src = if src == me { "a copy of the harness executable run under the name spawn-helper (no spawn-helper binary next to the harness)".to_string() } else { format!("a copy of {}", src.display()) };
+    let helper_src = if src == me { "a copy of the harness executable run under the name spawn-helper (no spawn-helper binary built from the same sources next to the harness)".to_string() } else { format!("a copy of {}", src.display()) };
     std::fs::copy(&src, &helper).expect("copy helper");
     chmod(&helper, 0o755);
     Ctx { root, helper, helper_src, cwd_dir, thorough, root_user: unsafe { libc::geteuid() } == 0 }
+}
+
+/// Run a candidate helper once (outside any spawn under test) and see whether its dump carries this
+/// harness's source hash.
+fn probe_helper(path: &std::path::Path, root: &str) -> bool {
+    use std::os::unix::io::AsRawFd as _;
+    use std::os::unix::process::CommandExt;
+    let rep = format!("{root}/probe-report");
+    let Ok(f) = std::fs::File::create(&rep) else { return false };
+    let fd = f.as_raw_fd();
+    let mut c = std::process::Command::new(path);
+    c.stdin(std::process::Stdio::null()).stdout(std::process::Stdio::null()).stderr(std::process::Stdio::null());
+    unsafe {
+        c.pre_exec(move || {
+            if libc::dup2(fd, REPORT_FD) < 0 {
+                return Err(std::io::Error::last_os_error());
+            }
+            Ok(())
+        });
+    }
+    let ok = c.status().is_ok();
+    drop(f);
+    let v: Value = std::fs::read(&rep).ok().and_then(|b| serde_json::from_slice(&b).ok()).unwrap_or(Value::Null);
+    let _ = std::fs::remove_file(&rep);
+    ok && v["proto"].as_u64() == Some(PROTO)
 }
 
 fn chmod(p: &str, mode: u32) {
@@ -1146,6 +1172,10 @@ fn faults_of_trace(obs: &Value, thorough: bool) -> Vec<Fault> {
     v
 }
 
+fn skipped(res: &Result<Value, String>) -> bool {
+    matches!(res, Err(e) if e == "skipped")
+}
+
 fn short_trace(obs: &Value) -> Vec<String> {
     obs["trace"].as_array().map(|a| a.iter().map(|e| format!("{}:{}#{}", e["side"].as_str().unwrap_or("?"), e["call"].as_str().unwrap_or("?"), e["idx"])).collect()).unwrap_or_default()
 }
@@ -1160,7 +1190,9 @@ fn check_config(sh: &Shard, job: &Job, r: &mut Report) {
         // (in a pairs job the fault-free and the single-deviation runs only provide the traces;
         // they are counted and judged in the configuration's ordinary job)
         r.eval();
-        r.nontrivial_unique();
+        if !skipped(&res) {
+            r.nontrivial_unique();
+        }
         judge(&sh.ctx, cfg, &[], &res, r);
     }
     let Ok(obs) = res else {
@@ -1194,7 +1226,9 @@ fn check_config(sh: &Shard, job: &Job, r: &mut Report) {
         let res1 = sh.run(cfg, &fs);
         if !job.pairs {
             r.eval();
-            r.nontrivial_unique();
+            if !skipped(&res1) {
+                r.nontrivial_unique();
+            }
             judge(&sh.ctx, cfg, &fs, &res1, r);
             r.outcome(&format!("fault@{}", f.step));
         } else if let Ok(o1) = res1 {
@@ -1213,8 +1247,10 @@ fn check_config(sh: &Shard, job: &Job, r: &mut Report) {
             let fs2 = [f.clone(), f2.clone()];
             set_case(&replay_of(cfg, &fs2).to_string());
             r.eval();
-            r.nontrivial_unique();
             let res2 = sh.run(cfg, &fs2);
+            if !skipped(&res2) {
+                r.nontrivial_unique();
+            }
             judge_pair(&sh.ctx, cfg, &fs2, &res2, r);
         }
     }
@@ -1356,8 +1392,9 @@ fn stdio_triples() -> Vec<Config> {
     v
 }
 
-/// args x env x cwd x ids x closure x all stdio triples (quick: fault-free only; thorough: with deviations)
-fn product() -> Vec<Config> {
+/// args x env x cwd x ids x closure x stdio triples (quick: the 64 triples without Inherit, fault-free
+/// only; thorough: all 125 triples, with deviations)
+fn product(thorough: bool) -> Vec<Config> {
     let args: Vec<Vec<Vec<u8>>> = vec![vec![], vec![b(b"--exit=7")], vec![b(b"--exit=3"), b(b"")]];
     let envs: Vec<Option<Vec<Vec<u8>>>> = vec![None, Some(vec![b(b"A=1")]), Some(vec![b(b"A=1"), b(b"B=two words")])];
     let mut v = Vec::new();
@@ -1367,6 +1404,11 @@ fn product() -> Vec<Config> {
                 for ids in [false, true] {
                     for cl in ["none", "ok"] {
                         for t in stdio_triples() {
+                            // quick: Inherit is left to the 125 base-command triples (`None` and
+                            // `Some(Inherit)` take the same path through setup_io)
+                            if !thorough && t.stdio.contains(&Sm::Inherit) {
+                                continue;
+                            }
                             v.push(Config {
                                 bin: "helper".into(),
                                 args: a.clone(),
@@ -1413,7 +1455,7 @@ fn jobs(ctx: &Ctx) -> Vec<Job> {
     for c in stdio_triples() {
         add(c, true, t, false, &mut out);
     }
-    for c in product() {
+    for c in product(t) {
         add(c, t, false, false, &mut out);
     }
     if t {
@@ -1455,7 +1497,7 @@ fn c13(args: &Args) -> Report {
     let n_shards = items.len();
     let mut r = run_isolated(items, &args.out, "C13");
     let _ = std::fs::remove_dir_all(&ctx.root);
-    r.rule = "every configuration of the family (single-factor variations of a base command, all 125 stdio triples; thorough: args x env x cwd x ids x closure x stdio product) is spawned through the real Command::spawn in a fresh caller process; then once more per (intercepted call of parent or forked child, errno of the call's menu). Each (configuration, deviation list) is generated exactly once; a case is non-trivial when spawn was really executed (fork + exec of the dump program, or the planned deviation applied).".into();
+    r.rule = "configuration family: single-factor variations of a base command (bin, args, env, cwd, each stdio mode per stream, uid, gid, pgroup, pre-exec closure), all 125 stdio triples of the base command, and the product args{3} x env{3} x cwd{2} x ids{2} x closure{2} x stdio triples (quick: 64 triples, fault-free; thorough: 125 triples). Every configuration is spawned through the real Command::spawn in a fresh caller process and the program's dump compared with the configuration; configurations marked for deviations are re-run once per (intercepted call of the parent or of the forked child, errno of that call's menu); thorough adds pairs of deviations for the base and the all-pipes command. Each (configuration, deviation list) is generated exactly once (duplicates removed by configuration text); every case really executes spawn (fork + exec of the dump program or the planned deviation applied, which is checked), so every case counts as non-trivial.".into();
     r.bound("tier", if args.thorough { "thorough" } else { "quick" });
     r.bound("tiny_std_start_feature", WITH_START);
     r.bound("configurations", n_cfg as u64);
@@ -1491,6 +1533,12 @@ fn replay(v: &Value) -> Report {
     let sh = Shard::new(&ctx, "replay");
     let mut r = Report::new();
     let res = sh.run(&cfg, &faults);
+    if faults.len() >= 2 {
+        judge_pair(&ctx, &cfg, &faults, &res, &mut r);
+    } else {
+        judge(&ctx, &cfg, &faults, &res, &mut r);
+    }
+    let _ = std::fs::remove_dir_all(&ctx.root);
     match &res {
         Ok(o) => {
             let mut o2 = o.clone();
@@ -1500,12 +1548,6 @@ fn replay(v: &Value) -> Report {
         }
         Err(e) => println!("no observation: {e}"),
     }
-    if faults.len() >= 2 {
-        judge_pair(&ctx, &cfg, &faults, &res, &mut r);
-    } else {
-        judge(&ctx, &cfg, &faults, &res, &mut r);
-    }
-    let _ = std::fs::remove_dir_all(&ctx.root);
     r
 }
 
